@@ -336,16 +336,22 @@ func b2s(b bool) string {
 // litStores returns the stores to the fields of a struct built in an alloc.
 func litStores(a *ssa.Alloc) map[string][]*ssa.Store {
 	out := map[string][]*ssa.Store{}
-	for _, ref := range *a.Referrers() {
-		if fa, ok := ref.(*ssa.FieldAddr); ok {
-			_, name := core.FieldOwner(fa)
-			for _, rr := range *fa.Referrers() {
-				if st, ok := rr.(*ssa.Store); ok && st.Addr == fa {
-					out[name] = append(out[name], st)
+	var walk func(base ssa.Value, prefix string)
+	walk = func(base ssa.Value, prefix string) {
+		for _, ref := range *base.Referrers() {
+			if fa, ok := ref.(*ssa.FieldAddr); ok && fa.X == base {
+				_, name := core.FieldOwner(fa)
+				name = prefix + name
+				for _, rr := range *fa.Referrers() {
+					if st, ok := rr.(*ssa.Store); ok && st.Addr == fa {
+						out[name] = append(out[name], st)
+					}
 				}
+				walk(fa, name+".")
 			}
 		}
 	}
+	walk(a, "")
 	return out
 }
 
